@@ -2,8 +2,7 @@
    Only statements.  Request parser part (stream parser part is added as its proofs complete).
    The reply function [reply_for] (Parser/ReqWire.v) is the specification: record type, request id,
    protocol status and body per the FastCGI specification; encodings are those of C17. *)
-From FV Require Import Base.Bytes Gen.Generated Codec.Varint Codec.NV Codec.Header Codec.Bodies Codec.Vars
-  Parser.ReqModel Parser.ReqParamsSpec Parser.ReqWire Parser.ReqTargets Parser.ReqRecords Parser.ReqFinal.
+From FV Require Import Base.Bytes Gen.Generated Codec.Varint Codec.NV Codec.Header Codec.Bodies Codec.Vars Parser.ReqModel Parser.ReqParamsSpec Parser.ReqWire Parser.ReqTargets Parser.ReqRecords Parser.ReqFinal Parser.StreamModel Parser.AbsStream Parser.StreamSpec Parser.StreamRefine Parser.StreamInv Parser.StreamFinal.
 
 (* one complete record, at a record boundary: consumed entirely, exactly the owed reply emitted,
    state moved as the phase machine [rec_step] prescribes (up to [settle]) — for every record *)
@@ -51,3 +50,62 @@ Example C04_example :
   reply_for 5 Idle (mkRcd 77 3 [1; 2] []) = [1; 11; 0; 3; 0; 8; 0; 0; 77; 0; 0; 0; 0; 0; 0; 0]
   /\ reply_for 5 (InParams 1) (mkRcd RT_BeginRequest 2 [0; 1; 0; 0; 0; 0; 0; 0] []) = [1; 3; 0; 2; 0; 8; 0; 0; 0; 0; 0; 0; 1; 0; 0; 0].
 Proof. split; reflexivity. Qed.
+
+(* ==== pinned from the proof files (tools/write_props.py) ==== *)
+
+(* ---- stream parser ----  for ARBITRARY bytes and every legal schedule: emitted ++ pending ++ still-owed =
+   the reply specification R of the bytes fed: one reply per reply-owing record, in order, none lost, none
+   duplicated *)
+Theorem C04_stream_any_bytes :
+  forall (maxc : N) (p0 : sp) (ops : list cop) (u : bytes),
+  sp_inv p0 ->
+  csched_legal maxc p0 ops ->
+  let pf := cfinal maxc p0 ops in
+  cemitted maxc p0 ops ++ output_buffer pf ++ replies_coming maxc pf u =
+  output_buffer p0 ++ replies_coming maxc p0 (cfed ops ++ u).
+Proof. exact C04_stream. Qed.
+
+(* the reply specification read record by record (unknown type -> UnknownType; GetValues with a non-empty body
+   -> GetValuesResult; BeginRequest for another id -> EndRequest CantMpxConn; nothing else owes a reply) *)
+Theorem C04_replies_of_records :
+  forall (maxc id : N) (st : sstate) (rs : list rcd) (t : list N),
+  Forall rcd_ok rs ->
+  RA maxc id st 0 0 (enc_rcds rs ++ t) =
+  replies_rcds maxc id rs ++ (if replies_open maxc id rs then RA maxc id SSkip 0 0 t else []).
+Proof. exact RA_rcds. Qed.
+
+(* MAIN: for a converted parser over a wire that continues with records rs: everything emitted and pending is a
+   prefix of the replies owed for rs, and all of them once nothing is left to parse *)
+Theorem C04_stream_records :
+  forall (maxc : N) (rp : parser) (r : req) (sp0 : sp) (rs : list rcd) (t : list N) 
+    (ops : list cop) (u : list N),
+  parser_ok rp ->
+  st rp = Done r ->
+  into_stream_parser rp = inl sp0 ->
+  Forall rcd_ok rs ->
+  held rp ++ cfed ops ++ u = enc_rcds rs ++ t ->
+  csched_legal maxc sp0 ops ->
+  let pf := cfinal maxc sp0 ops in
+  let owed :=
+    replies_rcds maxc (r_id r) rs ++
+    (if replies_open maxc (r_id r) rs then RA maxc (r_id r) SSkip 0 0 t else []) in
+  cemitted maxc sp0 ops ++ output_buffer pf ++ replies_coming maxc pf u = owed /\
+  (raw_bytes pf ++ u = [] -> cemitted maxc sp0 ops ++ output_buffer pf = owed).
+Proof. exact C04_stream_rcds. Qed.
+
+(* ... and when the wire consists of whole records only *)
+Theorem C04_stream_records_exact :
+  forall (maxc : N) (rp : parser) (r : req) (sp0 : sp) (rs : list rcd) (t : list N) 
+    (ops : list cop) (u : list N),
+  parser_ok rp ->
+  st rp = Done r ->
+  into_stream_parser rp = inl sp0 ->
+  Forall rcd_ok rs ->
+  len t < HEADER_LEN ->
+  held rp ++ cfed ops ++ u = enc_rcds rs ++ t ->
+  csched_legal maxc sp0 ops ->
+  let pf := cfinal maxc sp0 ops in
+  cemitted maxc sp0 ops ++ output_buffer pf ++ replies_coming maxc pf u = replies_rcds maxc (r_id r) rs /\
+  (raw_bytes pf ++ u = [] -> cemitted maxc sp0 ops ++ output_buffer pf = replies_rcds maxc (r_id r) rs).
+Proof. exact C04_stream_rcds_exact. Qed.
+
